@@ -17,12 +17,41 @@ def generate(d):
     impl_it = src[s3:e3]
     s4, e4 = gen.find_item(impl_it, r"fn\s+next_committed_events\b")
     it_fn = impl_it[s4:e4]
+    s5, e5 = gen.find_item(src, r"impl\s+BucketSegmentReader\b")
+    impl_b = src[s5:e5]
+    s6, e6 = gen.find_item(impl_b, r"fn\s+read_committed_events\b")
+    fn2 = desugar_polonius(impl_b[s6:e6], rewrites)
     inst = "\n".join(f"#[kani::proof]\n#[kani::unwind({UNW})]\nfn c04_commit_matching_len{n}() {{ check({n}); }}" for n in range(3, K + 1))
-    h = gen.harness_text("c04/harness.rs").replace("@SLICE@", fn).replace("@ITER_SLICE@", it_fn).replace("@INSTANCES@", inst).replace("@K@", str(K)).replace("@UNW@", str(UNW))
+    inst += "\n" + "\n".join(f"#[kani::proof]\n#[kani::unwind({UNW})]\nfn c04_bucket_reader_len{n}() {{ check_bucket_reader({n}); }}" for n in range(3, K + 1))
+    h = gen.harness_text("c04/harness.rs").replace("@SLICE@", fn).replace("@SLICE2@", fn2).replace("@ITER_SLICE@", it_fn).replace("@INSTANCES@", inst).replace("@K@", str(K)).replace("@UNW@", str(UNW))
     gen.write_crate(d, "c04-commit", '', "#![allow(unused, dead_code)]\n#![cfg(kani)]\n" + h)
     rewrites.append("slice: SegmentBlock::read_committed_events and SegmentBlockIter::next_committed_events (bucket/segment/reader.rs) verbatim into a mock SegmentBlock whose read_record serves a symbolic log; SmallVec -> array-backed stand-in (<= 4 events per transaction); "
                     "EventRecord/CommitRecord/Record/CommittedEvents reduced to the fields the function touches; Uuid -> (number, flag); every record one offset unit (COMMIT_SIZE = 1)")
     return {"rewrites": rewrites, "harness_file": str(d / "src/lib.rs")}
+
+
+def desugar_polonius(fn, rewrites):
+    """polonius_the_crab's macros are control-flow sugar around one closure-like block: `polonius!(|this| -> T { B })` evaluates B,
+    `polonius_return!(v)` returns v from the enclosing fn, `polonius_try!(e)` is `e?`, `exit_polonius!(v)` is the block's value.
+    The desugared text is what the harness compiles (the macro crate's unsafe lifetime extension is not part of the property)."""
+    import re
+    from engine.core import Inconclusive
+    out, n = re.subn(r"polonius!\(\|this\|\s*->\s*Result<[^{]*?>\s*\{", "{", fn, count=1, flags=re.S)
+    if n != 1:
+        raise Inconclusive("C04: polonius!(|this| -> Result<..> { not found exactly once in BucketSegmentReader::read_committed_events")
+    # the block closes with `});` at the end of the loop body
+    idx = out.rfind("});")
+    if idx < 0:
+        raise Inconclusive("C04: closing `});` of polonius! not found")
+    out = out[:idx] + "};" + out[idx + 3:]
+    for pat, rep, what in ((r"polonius_try!\(", "try_q!(", "polonius_try"), (r"polonius_return!\(", "ret_q!(", "polonius_return"), (r"exit_polonius!\(", "exit_q!(", "exit_polonius")):
+        out, k = re.subn(pat, rep, out)
+        if k == 0 and what != "exit_polonius":
+            raise Inconclusive(f"C04: {what}! not found in BucketSegmentReader::read_committed_events")
+    if "polonius" in out:
+        raise Inconclusive("C04: unhandled polonius macro left in the slice")
+    rewrites.append("desugar: polonius!(|this| -> T { B }) -> { B }; polonius_try!(e) -> e?; polonius_return!(v) -> return v; exit_polonius!(v) -> v (BucketSegmentReader::read_committed_events)")
+    return out
 
 
 def native_replay(rp, workroot):
@@ -31,16 +60,19 @@ def native_replay(rp, workroot):
 
 
 def spec(tier, seed):
-    enc = ("sierradb::bucket::segment::reader::SegmentBlock::read_committed_events",)
+    enc = ("sierradb::bucket::segment::reader::SegmentBlock::read_committed_events", "sierradb::bucket::segment::reader::BucketSegmentReader::read_committed_events")
     hs = [Harness(f"c04_commit_matching_len{n}", obligation=f"every log of {n} records the writer (plus crashes) can leave - commits preceded by their event_count unflagged events, flagged single events, orphaned events of uncommitted attempts anywhere, "
                   "transaction ids possibly reused by a retry - and every start offset: a Single result is a flagged event at the start offset; a Transaction result contains only events of the commit's transaction that belong to "
                   "THAT commit (the event_count records before it), contiguous, never an orphan, never another transaction's event", encodes=enc, bounds=f"log length {n}, 3 transaction ids; unwind {UNW}", timeout_s=600,
                   tiers=("quick", "thorough") if n <= 4 else ("thorough",)) for n in range(3, K + 1)]
+    hs += [Harness(f"c04_bucket_reader_len{n}", obligation=f"the same obligations for BucketSegmentReader::read_committed_events (the copy of the loop that index hydration and sequential scans use), logs of {n} records; "
+                   "in addition, for both copies: a `(None, Some(next))` answer never steps over the first record of a committed transaction", encodes=enc, bounds=f"log length {n}, 3 transaction ids; unwind {UNW}", timeout_s=600,
+                   tiers=("quick", "thorough") if n <= 4 else ("thorough",)) for n in range(3, K + 1)]
     hs.append(Harness("c04_vacuity_witness", expect_fail=True, obligation="twin", timeout_s=300))
     u = Unit("c04", generate, hs, jobs=4, workers=1)
     return PropSpec("C04", [u], native_replay=native_replay,
                     assumptions=["the log grammar of reachable on-disk states (harness well_formed): a crash can leave intact event records without their commit (seglog recovery keeps every intact record)",
                                  "record decoding (parse_record + bincode) is mocked: read_record serves decoded records"],
-                    outside_claim=["iteration over committed events (SegmentBlockIter::next_committed_events; harness `iterate` kept in the file, not instantiated: the data-dependent resume offsets did not finish in 600 s)", "BucketSegmentReader::read_committed_events (the same loop written with polonius macros over file reads) - not encoded", "the stream filter in BucketIter, Database::read_transaction routing",
+                    outside_claim=["iteration over committed events (SegmentBlockIter::next_committed_events; harness `iterate` kept in the file, not instantiated: the data-dependent resume offsets did not finish in 600 s)", "the stream filter in BucketIter, Database::read_transaction routing",
                                    "a concurrent reader racing the writer inside one record (C17/C18)"],
                     trusted_base=["kani-compiler 0.68 / CBMC 6.11 / cadical", "the slicer", "the log grammar in harness/c04/harness.rs"])
